@@ -904,6 +904,30 @@ def function_effects(qualname, func, module):
     return res
 
 
+def recompile_impl(evmod):
+    """the function object that holds the body of recompile: `recompile` itself, or the method of the same class it delegates to
+    (e.g. `with self._lock: self._recompile(text)`) — the one that contains the exec of the generated code"""
+    cls = evmod.ExperimentEvaluator
+    seen = set()
+    todo = ["recompile"]
+    while todo:
+        name = todo.pop(0)
+        if name in seen or not hasattr(cls, name):
+            continue
+        seen.add(name)
+        f = getattr(cls, name)
+        try:
+            fn = ast.parse(textwrap.dedent(inspect.getsource(f))).body[0]
+        except Exception:  # noqa
+            continue
+        if any(isinstance(n, ast.Call) and isinstance(n.func, ast.Name) and n.func.id == "exec" for n in ast.walk(fn)):
+            return f
+        for n in ast.walk(fn):
+            if isinstance(n, ast.Call) and isinstance(n.func, ast.Attribute) and isinstance(n.func.value, ast.Name) and n.func.value.id == "self":
+                todo.append(n.func.attr)
+    return cls.recompile
+
+
 def gen_effects():
     import sys as _sys
     from pyab_experiment.language import lexer as lexmod, grammar as grammod
@@ -934,7 +958,7 @@ def gen_effects():
     methods(slyyacc.Parser, slyyacc, only={"parse", "restart", "error", "errok", "line_position", "index_position"})
     methods(grammod.ExperimentParser, grammod)
     methods(genmod.PythonCodeGen, genmod)
-    methods(evmod.ExperimentEvaluator, evmod, only={"__init__", "recompile", "__call__"})
+    methods(evmod.ExperimentEvaluator, evmod)
     targets.append(("deterministic_proba", binmod.deterministic_proba, binmod))
     targets.append(("deterministic_choice", binmod.deterministic_choice, binmod))
     try:
@@ -977,7 +1001,7 @@ def gen_effects():
     # (iv) recompile publishes with exactly one store, after the new code is built
     publish_writes, publish_after_build = 0, False
     try:
-        fn = ast.parse(textwrap.dedent(inspect.getsource(evmod.ExperimentEvaluator.recompile))).body[0]
+        fn = ast.parse(textwrap.dedent(inspect.getsource(recompile_impl(evmod)))).body[0]
         order = []
         for node in ast.walk(fn):
             if isinstance(node, ast.Call) and isinstance(node.func, ast.Name):
@@ -1000,7 +1024,7 @@ def gen_effects():
     # attribute, a module global or a parameter), and the globals argument is None or equally fresh
     gen_fresh = False
     try:
-        fn = ast.parse(textwrap.dedent(inspect.getsource(evmod.ExperimentEvaluator.recompile))).body[0]
+        fn = ast.parse(textwrap.dedent(inspect.getsource(recompile_impl(evmod)))).body[0]
         fresh_locals = set()
         for node in ast.walk(fn):
             if isinstance(node, ast.Assign) and len(node.targets) == 1 and isinstance(node.targets[0], ast.Name):
@@ -1017,6 +1041,66 @@ def gen_effects():
                                         and c.args[2].id in fresh_locals for c in execs)
     except Exception:  # noqa
         gen_fresh = False
+
+    # recompiles of one evaluator are serialised: every store to `run_experiment` / `_checksum` (in `recompile` or in a method it calls on self)
+    # happens inside a `with <lock>:` block whose lock is a threading.Lock / RLock held in a class or instance attribute, and the
+    # read of `_checksum` that decides whether to compile happens inside the same block
+    serialised = False
+    try:
+        cls_src = ast.parse(textwrap.dedent(inspect.getsource(evmod.ExperimentEvaluator))).body[0]
+        lock_attrs = set()
+        for st in ast.walk(cls_src):
+            if isinstance(st, (ast.Assign, ast.AnnAssign)):
+                v = st.value
+                if isinstance(v, ast.Call) and ast.unparse(v.func) in ("threading.Lock", "threading.RLock", "Lock", "RLock"):
+                    for tg in (st.targets if isinstance(st, ast.Assign) else [st.target]):
+                        lock_attrs.add(tg.attr if isinstance(tg, ast.Attribute) else getattr(tg, "id", None))
+        methods = {m.name: m for m in cls_src.body if isinstance(m, ast.FunctionDef)}
+
+        def locked_calls(fn):
+            """names of self-methods called only from inside a `with self.<lock>` block of fn"""
+            out = set()
+            for w in ast.walk(fn):
+                if isinstance(w, ast.With) and any(isinstance(it.context_expr, ast.Attribute) and it.context_expr.attr in lock_attrs for it in w.items):
+                    for c in ast.walk(w):
+                        if isinstance(c, ast.Call) and isinstance(c.func, ast.Attribute) and isinstance(c.func.value, ast.Name) and c.func.value.id == "self":
+                            out.add(c.func.attr)
+            return out
+
+        def touches_state(fn):
+            for n in ast.walk(fn):
+                if isinstance(n, ast.Attribute) and n.attr in ("_checksum", "run_experiment") and isinstance(n.ctx, ast.Store):
+                    return True
+                if isinstance(n, ast.Call) and isinstance(n.func, ast.Name) and n.func.id == "setattr":
+                    return True
+            return False
+
+        def all_inside_lock(fn):
+            inside = set()
+            for w in ast.walk(fn):
+                if isinstance(w, ast.With) and any(isinstance(it.context_expr, ast.Attribute) and it.context_expr.attr in lock_attrs for it in w.items):
+                    inside.update(id(x) for x in ast.walk(w))
+            for n in ast.walk(fn):
+                st = (isinstance(n, ast.Attribute) and n.attr in ("_checksum", "run_experiment")) or \
+                     (isinstance(n, ast.Call) and isinstance(n.func, ast.Name) and n.func.id == "setattr")
+                if st and id(n) not in inside:
+                    return False
+            return True
+        rec = methods.get("recompile")
+        if rec is not None and lock_attrs:
+            callees = locked_calls(rec)
+            state_methods = [m for name, m in methods.items() if touches_state(m) and name not in ("__init__",)]
+            serialised = all((m.name == "recompile" and all_inside_lock(m)) or (m.name in callees and m.name != "recompile") for m in state_methods) and bool(state_methods)
+            # a method reached under the lock must not ALSO be called from outside it by the class itself (other than through recompile)
+            for name, m in methods.items():
+                if name in ("recompile",):
+                    continue
+                for c in ast.walk(m):
+                    if isinstance(c, ast.Call) and isinstance(c.func, ast.Attribute) and isinstance(c.func.value, ast.Name) and c.func.value.id == "self" \
+                            and c.func.attr in [x.name for x in state_methods if x.name != "recompile"]:
+                        serialised = False
+    except Exception:  # noqa
+        serialised = False
 
     b = lambda x: "true" if x else "false"
     lines = [
@@ -1042,6 +1126,8 @@ def gen_effects():
         "def codeHolderIsLocal : Bool := %s" % b(gen_fresh),
         "def publishWrites : Nat := %d" % publish_writes,
         "def publishAfterBuild : Bool := %s" % b(publish_after_build),
+        "/-- every store to the installed function / the checksum, and the checksum test, happen under one lock -/",
+        "def recompileSerialised : Bool := %s" % b(serialised),
         "",
         "end Pyab.Generated",
     ]
@@ -1075,7 +1161,7 @@ def gen_pipeline():
 # --------------------------------------------------------------------------
 
 AMBIENT_MODULES = {"decimal", "os", "sys", "time", "datetime", "pathlib", "locale", "platform", "getpass", "socket", "uuid", "tempfile", "shutil", "glob",
-                   "subprocess", "threading", "multiprocessing", "signal", "gc", "io", "atexit", "ctypes", "resource", "secrets", "calendar",
+                   "subprocess", "multiprocessing", "signal", "gc", "io", "atexit", "ctypes", "resource", "secrets", "calendar",
                    "logging", "warnings", "weakref", "contextvars", "asyncio", "queue", "sched", "fcntl", "select", "mmap", "zoneinfo", "urllib",
                    "http", "importlib", "pkgutil", "site", "sysconfig", "builtins", "inspect", "traceback", "linecache", "tracemalloc", "faulthandler"}
 
